@@ -297,7 +297,6 @@ theorem resolveOperand_relative {o o' : Operand} {row : InstrRow} {t : SymTab}
       rw [hr] at h
       simp at h
       subst h; rfl
-  case pseudo => cases h; rw [hko] at hk; cases hk
   case special => cases h; rw [hko] at hk; cases hk
   all_goals
     exfalso
@@ -310,7 +309,7 @@ theorem resolveOperand_relative {o o' : Operand} {row : InstrRow} {t : SymTab}
 
 theorem translateOperand_relative {o : Operand} {row : InstrRow} {p : Pkg}
     (h : translateOperand o row = .ok p) (hk : o.kind = .relative) :
-    p.additional = if o.value.isAddress then o.value else .none := by
+    p.additional = o.value ∧ o.value.isAddress = true := by
   unfold translateOperand at h
   simp only [hk] at h
   cases hop : opVal row.rel with
@@ -320,7 +319,11 @@ theorem translateOperand_relative {o : Operand} {row : InstrRow} {p : Pkg}
     simp only [bind, Except.bind] at h
     split at h
     · cases h
-    · cases h; rfl
+    · split at h
+      · cases h
+      · rename_i hna
+        cases h
+        exact ⟨rfl, by simpa using hna⟩
 
 theorem resolveAll_mem {t : SymTab} : ∀ {a r : List Stmt}, resolveAll t a = some r → ∀ s' ∈ r,
     ∃ s ∈ a, ∃ o, resolveOperand s.operand s.row t = .ok o ∧ s' = { s with operand := o } := by
@@ -423,24 +426,20 @@ theorem layout_branchInside {a : List Stmt} {t : SymTab} {la : List Stmt}
   obtain ⟨s1, hs1, p, hp, e3, e4⟩ := translateAll_mem h2 s2 hs2
   obtain ⟨s0, hs0, o, ho, e5⟩ := resolveAll_mem h1 s1 hs1
   have hk1 : s1.operand.kind = .relative := by rw [← e3, ← e1]; exact hk
-  have hadd := translateOperand_relative hp hk1
+  obtain ⟨hadd, haddr⟩ := translateOperand_relative hp hk1
   rw [e2, e4, hadd] at hb
   have ho' : s1.operand = o := by rw [e5]
-  rw [ho'] at hk1 hb
+  rw [ho'] at hk1 hb haddr
   obtain ⟨_, hres⟩ := resolveOperand_relative ho hk1
-  split at hb
-  · rename_i haddr
-    cases hv : o.value with
-    | address i m =>
-      rw [hv] at hb hres
-      simp [Value.int?] at hb
-      subst hb
-      obtain ⟨k, m', hg⟩ := resolve_address hres (hna s0 hs0)
-      obtain ⟨kv, hkv, hkv2⟩ := SymTab.get?_mem hg
-      exact Nat.le_of_lt (htab kv hkv _ _ hkv2)
-    | _ => rw [hv] at haddr; cases haddr
-  · simp [Value.int?] at hb
-    omega
+  cases hv : o.value with
+  | address i m =>
+    rw [hv] at hb hres
+    simp [Value.int?] at hb
+    subst hb
+    obtain ⟨k, m', hg⟩ := resolve_address hres (hna s0 hs0)
+    obtain ⟨kv, hkv, hkv2⟩ := SymTab.get?_mem hg
+    exact Nat.le_of_lt (htab kv hkv _ _ hkv2)
+  | _ => rw [hv] at haddr; cases haddr
 
 /-! ### prefix stability of `back` and `assemble` (no PCR-sized statements) -/
 
